@@ -72,6 +72,12 @@ def step (st : Option State) (line : String) : Option State × String :=
     match (if spec = "N" then some [] else (spec.splitOn "|").mapM decTag) with
     | some tags => (some { tags := tags }, "ok")
     | none => (st, "bad-op")
+  -- between runs (no file of a run in progress): the collection the archiver's `tags_accessor` returns is another
+  -- one; the state of `OPM.C39.changed_collection_run`
+  | ["retag", spec], some s =>
+    match (if spec = "N" then some [] else (spec.splitOn "|").mapM decTag) with
+    | some tags => if s.fileExists || s.fileReady then (st, "bad-op") else (some { s with tags := tags }, "ok")
+    | none => (st, "bad-op")
   | ["start"], some s => (some (stepOp s .start), "ok")
   | ["row", now], some s =>
     match decodeStr now with
